@@ -9,7 +9,7 @@ import build, zv, frames, dictgen
 ASSUMPTIONS = ["the compressor front end is an oracle: each emitted frame is validated (library decoder in several modes + independent Lean decoder)",
                "'every dictionary' = the generator's families (valid with zero / low-probability symbols, extreme table logs, odd repeat offsets, truncated / mutated, raw of any length, trained)"]
 
-CM = "ucrlp"
+CM = "ucrlpbR"
 DM = "udlrpm"
 
 
@@ -110,7 +110,7 @@ def correspondence(ctx):
     for i in range(nr):
         k, d = rng.choice(pool)
         cm = rng.choice(CM)
-        dm = rng.choice("p" if cm == "p" else "udlrm")
+        dm = rng.choice("p" if cm in "pR" else "udlrm")
         lvl = rng.choice([-3, 1, 1, 2, 3, 3, 4, 5, 6, 7, 9, 12, 13, 16, 19])
         p = {100: lvl}
         if rng.random() < 0.3: p[101] = rng.choice([10, 12, 14, 17, 18, 20])
@@ -123,7 +123,7 @@ def correspondence(ctx):
         size = rng.choice([0, 1, 50, 3000, 20000, 60000, 150000, 400000] if not (k == "ofhole" and lvl <= 4) else [200000, 300000, 400000])
         nother = rng.choice([0, 3, 15, 16, 17, 24, 40]) if dm == "m" else 0
         has_id = len(d) >= 8 and d[:4] == dictgen.MAGIC.to_bytes(4, "little") and d[4:8] != b"\0\0\0\0"
-        if (p.get(202) == 0 and cm in "rl") or not has_id:
+        if (p.get(202) == 0 and cm in "rl") or not has_id or cm in "pR":
             nother = 0          # a frame that names no dictionary cannot select one from a table
         rl.append("rt %s %s %d %d %s %s %d %d %d" % (d.hex() or "-", cm, rng.choice([0, 0, 1, 2, 3]), 1 if (rng.random() < 0.15 and cm in "cr") else 0, frames.pstr(p), dm, rng.randrange(1 << 30), size, nother))
         meta.append((k, d, cm, dm, p, size))
@@ -146,13 +146,13 @@ def correspondence(ctx):
         m = re.match(r"ok fid=(\d+) n=(\d+) in=(\w+) wrong=(\S+) frame=(\S+)", o)
         fid, wrong, fhex = int(m.group(1)), m.group(4), m.group(5)
         did = int.from_bytes(d[4:8], "little") if (len(d) >= 8 and d[:4] == dictgen.MAGIC.to_bytes(4, "little")) else 0
-        want = 0 if ((p.get(202) == 0 and cm in "rl") or cm == "p") else did      # ZSTD_compress_usingDict / _usingCDict ignore the context's advanced parameters
+        want = 0 if ((p.get(202) == 0 and cm in "rl") or cm in "pR") else did      # ZSTD_compress_usingDict / _usingCDict ignore the context's advanced parameters
         if fid != want:
             ctx.violation("frame records dictionary ID %d, the dictionary's is %d (%s)" % (fid, want, short), dict(kind="monitor", op=ln, result=o[:300]))
         if wrong != "-" and fid != 0 and wrong != "dictionary_wrong":
             ctx.violation("frame naming dictionary %d decoded with the same dictionary under another ID: %s instead of dictionary_wrong (%s)" % (fid, wrong, short), dict(kind="monitor", op=ln, result=o[:300]))
         if size <= 60000 and len(ml) < (150 if quick else 2500):
-            ml.append("decd %d %s %s %d" % (size, fhex, d.hex() or "-", 1 if cm == "p" else 0))
+            ml.append("decd %d %s %s %d" % (size, fhex, d.hex() or "-", 1 if cm in "pR" else 0))
             mmeta.append((ln, m.group(2), m.group(3), short))
     if ml:
         mo2 = frames.parallel(lambda ch: frames.model_lines(ch, timeout=3000), frames.split_chunks(ml, 16))
